@@ -7,6 +7,6 @@ require (
 	pgregory.net/rapid v1.3.0
 )
 
-require golang.org/x/image v0.7.0 // indirect
+require golang.org/x/image v0.7.0
 
 replace github.com/reactivego/ivg => /repo
